@@ -538,9 +538,9 @@ void mmd_export_token_html(DString * out, const char * source, token * t, scratc
 		return;
 	}
 
-	short	temp_short;
-	short	temp_short2;
-	short	temp_short3;
+	int		temp_short;
+	int		temp_short2;
+	int		temp_short3;
 	link *	temp_link	= NULL;
 	char *	temp_char	= NULL;
 	char *	temp_char2	= NULL;
